@@ -92,9 +92,7 @@ class Coll:
         for f in self.methods:
             if not f.locals[0].startswith("core::result::Result<(), "):
                 continue
-            loaded = set()
-            for e in f.calls_named(ATOMIC_LOAD_RX.pattern):
-                loaded |= recv_fields(f, e)
+            loaded = self._loaded_fields(f, 3)
             if {"lifecycle", "read_only", "database_read_only"} <= loaded:
                 self.check_fns.append(f)
         if not self.check_fns:
@@ -122,6 +120,20 @@ class Coll:
         self.cancel_ctor_ids = {f.id for f in self.methods if re.search(self.cancel_ty_rx, f.locals[0])}
         if not self.cancel_ctor_ids:
             raise CheckerFault("anchor missing: no Collection method returns the cancel guard type")
+
+    def _loaded_fields(self, f, depth):
+        """Atomic fields of the handle loaded by f, directly or through small `&self` predicates it calls
+        (`ensure_mutable` may be written in terms of `is_active_handle()`)."""
+        loaded = set()
+        for e in f.calls_named(ATOMIC_LOAD_RX.pattern):
+            loaded |= recv_fields(f, e)
+        if depth > 0:
+            mids = {m.id: m for m in self.methods}
+            for e in f.calls():
+                m = mids.get(e.rid) or mids.get(e.cid)
+                if m is not None and m.id != f.id and not m.coroutine and self.prog.async_body(m) is None and m.n <= 40:
+                    loaded |= self._loaded_fields(m, depth - 1)
+        return loaded
 
     # ---------------------------------------------------------------- events
     def lifecycle_writes(self, f):
